@@ -66,7 +66,40 @@ def states():
         os.makedirs(os.path.join(r, "cond-out", "a", "x.task.77"), exist_ok=True)  # an unrecorded leftover
         return r
 
-    return {"empty": s_empty, "runs": s_runs, "failed": s_failed, "emptied": s_emptied, "restored": s_restored}
+    def s_gitnested():
+        """The project is a real git repository (two commits, a version recorded at the first); nocond/ is an unrelated
+        nested repository of its own."""
+        r = base()
+        g = lambda d, *a: _git(os.path.join(r, d), *a)
+        g(".", "init", "-q")
+        g(".", "add", "COND", "a", "defs.cond", "local.cond", "cond_config.toml")
+        g(".", "commit", "-q", "-m", "c1")
+        hist.run(r, ["run", "//a:x"], clock=driver.Clock(1_700_000_000), behaviours=BEH, git=fakegit.RealGit())
+        with open(os.path.join(r, "a", "COND"), "a") as f:
+            f.write("# changed\n")
+        g(".", "commit", "-q", "-am", "c2")
+        g("nocond", "init", "-q")
+        g("nocond", "add", "defs.cond")
+        g("nocond", "commit", "-q", "-m", "unrelated")
+        return r
+
+    return {"empty": s_empty, "runs": s_runs, "failed": s_failed, "emptied": s_emptied, "restored": s_restored, "gitnested": s_gitnested}
+
+
+GENV = {"GIT_AUTHOR_NAME": "a", "GIT_AUTHOR_EMAIL": "a@x", "GIT_COMMITTER_NAME": "a", "GIT_COMMITTER_EMAIL": "a@x",
+        "GIT_AUTHOR_DATE": "2020-01-01T00:00:00Z", "GIT_COMMITTER_DATE": "2020-01-01T00:00:00Z", "GIT_CONFIG_NOSYSTEM": "1", "HOME": "/nonexistent"}
+
+
+def _git(cwd, *args):
+    import subprocess
+    p = subprocess.run(["git"] + list(args), cwd=cwd, env=dict(os.environ, **GENV), capture_output=True, text=True)
+    if p.returncode != 0:
+        raise RuntimeError("git %r failed: %s" % (args, p.stderr))
+    return p.stdout.strip()
+
+
+GIT_COMMANDS = [["run", "//a:x", "--this-commit"], ["run", "//a:x", "--at-least", "HEAD~1"], ["run", "//a:x", "--at-least", "HEAD"],
+                ["run", "//a/b:g"], ["where", "//a:x"], ["run", "//a:x", "--at-least", "no-such-ref"]]
 
 
 def commands(root):
@@ -89,11 +122,13 @@ def warmup():
 
 
 def items(tier):
-    out = [{"state": s, "cmd_index": i} for s in states() for i in range(len(commands("/x")))]
+    out = [{"state": s, "cmd_index": i} for s in states() if s != "gitnested" for i in range(len(commands("/x")))]
+    out += [{"state": "gitnested", "cmd_index": i} for i in range(len(GIT_COMMANDS))]
     out.append({"state": "nested"})
     return out
 
 
+GIT_FOR_STATE = {}
 PATH_PREFIXES = ("Would delete ", "Deleting ", "✨ Done! Archive saved as ")
 
 
@@ -113,7 +148,7 @@ def observe(root, snap, cmd, d, clock_t):
     for x in DIRS:
         os.makedirs(os.path.join(root, x), exist_ok=True)
     cwd = os.path.join(root, d)
-    r = hist.run(root, cmd, cwd=d, clock=driver.Clock(clock_t), behaviours=BEH)
+    r = hist.run(root, cmd, cwd=d, clock=driver.Clock(clock_t), behaviours=BEH, git=GIT_FOR_STATE.get("current"))
     extra = sorted(f for f in os.listdir(root) if f.endswith(".tar.gz"))
     return {
         "exit": r.exit, "exc": None if r.exc is None else "%s: %s" % (type(r.exc).__name__, r.exc),
@@ -135,7 +170,8 @@ def run_item(item, tier):
         _nested(res, viol)
     else:
         root = states()[item["state"]]()
-        cmd = commands(root)[item["cmd_index"]]
+        GIT_FOR_STATE["current"] = fakegit.RealGit() if item["state"] == "gitnested" else None
+        cmd = (GIT_COMMANDS if item["state"] == "gitnested" else commands(root))[item["cmd_index"]]
         snap = hist.snapshot(root, root + "-snap")
         ref_obs = observe(root, snap, cmd, ".", 1_700_000_100)
         for d in DIRS[1:]:
